@@ -492,6 +492,31 @@ def run(R):
                          detail=None if safe else "the template writes its argument without <..> or quotes and the text may contain `.`, `,` or `;` "
                          "(e.g. `ex:report.pdf`): tokenize_turtle_star_line cuts it there on re-import")
         R.floor("C14-R7", "format templates in generate_turtle", ntm, 3)
+    # ---- R8 the IRI guess needs a scheme
+    R.rule("C14-R8", "what is written inside <...> has a scheme: the predicate that classifies a stored value as an absolute IRI (and so sends it to the "
+                     "unescaped <...> form instead of the escaped literal form) tests that the part before the first `:` is not empty - a first "
+                     "character is taken and examined (`next()` + `is_some_and` / match, `first()`, `!is_empty()`). A universally quantified test "
+                     "alone (`all(..)`) is vacuously true for the empty scheme: the literal `:-> see section 2` is written as an IRI, unescaped")
+    li = prog.one("sparql_database::looks_like_absolute_iri", crate="kolibrie")
+    R.anchor("C14-R8", "looks_like_absolute_iri", li)
+    if li is not None:
+        fam = prog.family(li.key)
+        names = [c.name() for x in fam for c in x.calls()]
+        nonempty = any(n in ("is_some_and", "is_empty", "first", "split_first", "is_some", "map_or", "is_none_or") for n in names)
+        if not nonempty:
+            for x in fam:
+                for c in x.calls():
+                    if c.name() == "next" and c.dest is not None:
+                        # the Option result is examined (switch on its discriminant / `?`)
+                        for bb, t in x.terms():
+                            if t["t"] == "switch":
+                                d = G.describe_discr(x, t["discr"])
+                                if d.get("kind") == "discr" and "Option" in (d.get("adt") or ""):
+                                    nonempty = True
+        R.ob("C14-R8", "scheme-not-empty", "looks_like_absolute_iri requires a first scheme character (calls: %s)" % sorted(set(names))[:8], nonempty, where=li.where(),
+             detail=None if nonempty else "nothing tests that the scheme is non-empty: `all` over no characters is true, so a value that starts with `:` is classified as an IRI")
+        users = [b for b in prog.bodies.values() if b.crate == "kolibrie" and any(c.key == li.key for c in b.calls())]
+        R.floor("C14-R8", "callers of the IRI classifier", len(users), 1)
     # ---- R6 decode once
     R.rule("C14-R6", "a term is decoded once: what a loader's term cleaner returns (IRI without brackets, literal decoded to its lexical value) is "
                      "stored as it is - it is not handed to a function that interprets surface syntax again (encode_term_star, "
